@@ -240,10 +240,11 @@ def run_harness(ctx, binpath, module, behaviours, name, shards=None, timeout=900
                 raise Infra("harness shard %d timed out after %ds" % (i, timeout))
             if not os.path.exists(sp):
                 log = open(os.path.join(d, "out.%d.log" % i), errors="replace").read()
-                m = re.search(r"^fatal error: (.*)$", log, re.M)
-                if m:
-                    # the Go runtime ended the process (concurrent map writes, all goroutines asleep, ...): no recover() can
-                    # catch that.  It counts as the teamserver's own end when the goroutine that ran into it was in its code
+                m = re.search(r"^(?:fatal error|panic): (.*)$", log, re.M)
+                if m and "harness-error" not in m.group(1):
+                    # the process ended: a Go runtime fatal error (concurrent map writes, ...) or a panic in a goroutine nobody
+                    # recovers (a listener's, a relay's).  It counts as the teamserver's own end when the goroutine that ran
+                    # into it was in its code
                     blk = log[m.start():].split("\n\n")[1] if "\n\n" in log[m.start():] else ""
                     frames = re.findall(r"^([\w./*()\-]+)\(", blk, re.M)
                     first = next((f for f in frames if not f.startswith(("runtime.", "sync.", "internal/"))), "")
